@@ -337,7 +337,7 @@ class PlotData:
                         # nb. the default is chosen separately for every output - it must not carry over to the other outputs in this call
                         this_output_aggregation = output_aggregation
                         if this_output_aggregation is None:
-                            if units[0] in ["", FS.QUANTITY_TYPE_FRACTION, FS.QUANTITY_TYPE_PROPORTION, FS.QUANTITY_TYPE_PROBABILITY, FS.QUANTITY_TYPE_RATE]:
+                            if output_units[labels[0]] in ["", FS.QUANTITY_TYPE_FRACTION, FS.QUANTITY_TYPE_PROPORTION, FS.QUANTITY_TYPE_PROBABILITY, FS.QUANTITY_TYPE_RATE]:
                                 this_output_aggregation = "average"
                             else:
                                 this_output_aggregation = "sum"
